@@ -432,7 +432,8 @@ impl<'a> Run<'a> {
             }
         };
         if self.noisy {
-            read_battery(&self.level);
+            // a read-only call that panics (e.g. total_quantity on wrapped counters) must not take the worker down
+            let _ = std::panic::catch_unwind(std::panic::AssertUnwindSafe(|| read_battery(&self.level)));
         }
         let mut mres = vec![];
         for m in self.models.iter_mut() {
